@@ -538,13 +538,8 @@ func (trie *PatriciaTrie) put(curNode *PatriciaNode, key string, data types.Node
 				// split at j
 				childSub := substring(child.key, j, len(child.key))
 				sub := substring(key, j, len(key))
-				childNode := &PatriciaNode{ // c#
-					key:      childSub,
-					dye:      child.dye,
-					terminal: child.terminal,
-					data:     child.data,
-					children: child.children,
-				}
+				childNode := child.Clone() // c#: Clone copies the children slice, the old child stays in older views
+				childNode.key = childSub
 
 				node := &PatriciaNode{ // d#
 					key:      sub,
